@@ -86,6 +86,7 @@ type tr struct {
 	optPar  map[string]bool
 	loops   *[]string // extra definitions emitted before the function
 	nloop   int
+	ord     *declOrd // declaration order of the variables (declorder.go)
 }
 
 // genError is raised when a function leaves the translator's grammar; emitPreds skips that function (and, through
